@@ -308,7 +308,9 @@ ApplyEff(s, cx, f) ==
          LET act == s.actors[f.aid]
              rdy == act.inner = "ready"
              n == IF rdy THEN Cardinality({i \in 1..Len(act.slab) : act.slab[i] # 0}) ELSE 0
-         IN Op(Emit(s, [e |-> "slablen", aid |-> f.aid, ready |-> rdy, len |-> n]), [op |-> "slablen", aid |-> f.aid])
+             z == IF rdy THEN Cardinality({i \in 1..Len(act.slab) : act.slab[i] # 0 /\ s.actors[act.slab[i]].bits = "zombie"}) ELSE 0
+         IN Op(Emit(s, [e |-> "slablen", aid |-> f.aid, ready |-> rdy, len |-> n, iter |-> n, empty |-> (n = 0), zombies |-> z]),
+               [op |-> "slablen", aid |-> f.aid])
     [] f.op = "call" ->
          LET c == [Clo("call", s.nextId, f.aid, f.prep) EXCEPT !.ho = f.ho, !.hr = f.hr]
              s1 == [s EXCEPT !.deferQ = Append(@, c), !.nextId = @ + 1,
